@@ -21,17 +21,44 @@ open Operon.Gen.MitoCaps
 /-- The source as it is now guards both execution paths, and has no other `.execute(...)` site. -/
 theorem c03_guards_extracted : guards = ⟨true, true⟩ ∧ otherExecuteSites = [] := by decide
 
+/-- Package-wide source facts (every module of `operon_ai` that mentions the engine or a `.tools` registry): nothing but
+    the two guarded functions runs, aliases or `getattr`s a tool's `.execute` / `.func`; nobody outside
+    `class Mitochondria` touches a `.tools` registry; outside mitochondria.py an engine is only used through its public
+    API (the tool loop: `export_tool_schemas` and `execute_tool_call`).  An entry point added later shows up here. -/
+theorem c03_no_other_route_extracted : registryUsesOutside = [] ∧ engineOtherUses = [] := by decide
+
 /-- **The ceiling test of the source is the model's `permitted`** on the complete table over a 3-tag universe
     (729 rows: every ceiling x every way of declaring capabilities), obtained by running the real `execute_tool_call`
     with a counting tool body.  The universe mixes the kinds of tag a declaration may hold - a core `Capability`
     member, a plain string equal to that member's value, a member of a foreign Enum with the same name and value - so
     a test that looks at anything but the tag itself (its value, its name, a table of the core members) changes the
     table.  The code handles tags uniformly (set operations only), so the table covers the decision logic: fallback
-    from `required_capabilities` to `capabilities`, empty vs. absent, `None` vs. empty ceiling. -/
+    from `required_capabilities` to `capabilities`, empty vs. absent, `None` vs. empty ceiling.  The body ran iff the
+    model permits, and the result reports success iff the body ran (refusal is reported as a failure). -/
 theorem c03_permitted_table_agrees :
     ∃ rows, permTable = some rows ∧ rows.length = 729 ∧
-      rows.all (fun r => permitted r.1 ⟨0, r.2.1, r.2.2.1, false⟩ == r.2.2.2) = true := by
+      rows.all (fun r => permitted r.allowed ⟨0, r.req, r.caps, false⟩ == r.callRan && r.callRan == r.callOk) = true := by
   refine ⟨_, rfl, by decide +kernel, by decide +kernel⟩
+
+/-- the same table through the expression pathway, `metabolize("t()", OXIDATIVE)`: the test that guards THIS path is
+    the model's `permitted` too (an inline guard with other semantics - a falsy-default ceiling, no `capabilities`
+    fallback - changes these columns) -/
+theorem c03_permitted_table_agrees_metabolize :
+    ∃ rows, permTable = some rows ∧
+      rows.all (fun r => permitted r.allowed ⟨0, r.req, r.caps, false⟩ == r.metRan && r.metRan == r.metOk) = true := by
+  refine ⟨_, rfl, by decide +kernel⟩
+
+/-- ... through `metabolize("t()")` with the auto-detected pathway -/
+theorem c03_permitted_table_agrees_auto :
+    ∃ rows, permTable = some rows ∧
+      rows.all (fun r => permitted r.allowed ⟨0, r.req, r.caps, false⟩ == r.autoRan && r.autoRan == r.autoOk) = true := by
+  refine ⟨_, rfl, by decide +kernel⟩
+
+/-- ... and through `Nucleus.transcribe_with_tools` with a provider that requests the tool -/
+theorem c03_permitted_table_agrees_loop :
+    ∃ rows, permTable = some rows ∧
+      rows.all (fun r => permitted r.allowed ⟨0, r.req, r.caps, false⟩ == r.loopRan) = true := by
+  refine ⟨_, rfl, by decide +kernel⟩
 
 /-- **Registering a taken name replaces the object, through every registration entry point.**  The real constructor
     `tools=`, `engulf_tool` (SimpleTool / hand-written object) and `register_function` are evaluated on every pair of
@@ -158,6 +185,25 @@ theorem c03_loop_forwards_only_checked (k : Nat) (auto : Bool) (s : St) (rounds 
   rw [c03_guards_extracted.1]
   exact toolLoop_ext k auto rounds s
 
+/-- **In the tool loop a refusal is a failure without effect, at every position of a round**: when the loop reaches a
+    requested call (after serving the calls `pre` before it) and the tool then registered under that name is outside
+    the ceiling, the answer recorded for that call is a failure and no tool body runs for it. -/
+theorem c03_loop_refusal_is_failure_without_effect (s : St) (pre post : List (String × List RegOp)) (n : String)
+    (ops : List RegOp) (t : Tool)
+    (hl : (loopRound guards s pre).1.reg.lookup n = some t)
+    (hp : permitted (loopRound guards s pre).1.allowed t = false) :
+    (loopRound guards s (pre ++ (n, ops) :: post)).2[pre.length]? = some (.failure "PermissionError") ∧
+    (loopRound guards s (pre ++ [(n, ops)])).1.events = (loopRound guards s pre).1.events := by
+  have h := c03_refusal_is_failure_without_effect_call (loopRound guards s pre).1 n t ops hl hp
+  constructor
+  · rw [loopRound_append]
+    simp only [loopRound]
+    rw [List.getElem?_append_right (by simp [loopRound_length])]
+    simp [loopRound_length, h.1]
+  · rw [loopRound_append]
+    simp only [loopRound]
+    exact h.2.1
+
 /-- with `auto_execute=False` the loop runs nothing at all -/
 theorem c03_loop_without_auto_execute_runs_nothing (k : Nat) (s : St) (rounds : List Round) :
     (toolLoop guards k false s rounds).1.events = s.events := by
@@ -252,6 +298,15 @@ example :
     (run ⟨true, true⟩ (init (some []))
       [.register "w" tWrite, .call "w" [], .setCeiling (some [3]), .call "w" [], .setCeiling (some []), .call "w" []]
       ).events = [⟨tWrite, some [3]⟩] := by
+  decide
+
+/-- hypotheses of the loop refusal theorem are satisfiable: after serving `f`, `w` is registered outside the ceiling -/
+example :
+    let s : St := { reg := [("w", tWrite), ("f", tFree)], allowed := some [] }
+    (loopRound ⟨true, true⟩ s [("f", [])]).1.reg.lookup "w" = some tWrite ∧
+    permitted (loopRound ⟨true, true⟩ s [("f", [])]).1.allowed tWrite = false ∧
+    (loopRound ⟨true, true⟩ s [("f", []), ("w", []), ("f", [])]).2 =
+      [.success, .failure "PermissionError", .success] := by
   decide
 
 /-- hypotheses of the refusal theorems are satisfiable -/
